@@ -728,7 +728,77 @@ def run_attr_body(ctx, i, rng):
     ctx.check(ok, 'attr_body:%s' % ('scan_vs_loop' if is_scan else 'vmap_vs_stack'), lambda: dict(case=desc))
 
 
+def run_grandchild_arg(ctx, i, rng):
+  """Functional form with a bound GRAND-child sub-module passed as an extra argument next to `self`
+  (nn.scan(body)(self, c, xs, self.mid.dense)): two lifted scopes, one two levels below the other with a non-lifted scope in
+  between. The body computes with mid/dense - not with a direct child that happens to have the same name."""
+  import jax
+  import jax.numpy as jnp
+  import flax.linen as nn
+  tr = ['scan', 'vmap'][i % 2]
+  reverse = (i // 2) % 2 == 1
+  same_name = (i // 4) % 2 == 0      # self also owns a DIRECT child called 'dense'
+  desc = dict(transform=tr, reverse=reverse, direct_child_with_same_name=same_name)
+  with ctx.case('grandchild_arg', i, desc, nontrivial=True):
+    class Mid(nn.Module):
+      def setup(self):
+        self.dense = nn.Dense(3)
+
+      def __call__(self, x):
+        return self.dense(x)
+
+    class Outer(nn.Module):
+      lifted: bool
+
+      def setup(self):
+        self.mid = Mid()
+        if same_name:
+          self.dense = nn.Dense(3)
+        else:
+          self.other = nn.Dense(3)
+
+      def own(self, x):
+        return self.dense(x) if same_name else self.other(x)
+
+      def __call__(self, xs):
+        n = xs.shape[0]
+        if tr == 'scan':
+          if self.lifted:
+            def body(mdl, c, x, head):
+              c = jnp.tanh(c + head(x)) + 0.1 * mdl.own(x)
+              return c, 2.0 * c
+            return nn.scan(body, variable_broadcast='params', split_rngs={'params': False}, reverse=reverse)(self, jnp.zeros((3,)), xs, self.mid.dense)
+          c, ys = jnp.zeros((3,)), [None] * n
+          for k in (range(n - 1, -1, -1) if reverse else range(n)):
+            c = jnp.tanh(c + self.mid.dense(xs[k])) + 0.1 * self.own(xs[k])
+            ys[k] = 2.0 * c
+          return c, jnp.stack(ys)
+        if self.lifted:
+          return nn.vmap(lambda mdl, x, head: jnp.tanh(head(x)) + 0.1 * mdl.own(x), variable_axes={'params': None},
+                         split_rngs={'params': False})(self, xs, self.mid.dense)
+        return jnp.stack([jnp.tanh(self.mid.dense(xs[k])) + 0.1 * self.own(xs[k]) for k in range(n)])
+
+    xs = jnp.asarray(np.random.default_rng(i).uniform(-1, 1, (4, 3)).astype(np.float32))
+    vp = Outer(False).init(jax.random.key(i), xs)
+    vl = Outer(True).init(jax.random.key(i), xs)
+    ctx.op('nn.%s(fn)(self, ..., self.mid.dense)' % tr)
+    sh = lambda t: jax.tree_util.tree_map(lambda a: tuple(a.shape), t)  # noqa: E731
+    ctx.check(sh(vp) == sh(vl), 'grandchild_arg:init_tree', lambda: dict(case=desc, plain=repr(sh(vp))[:300], lifted=repr(sh(vl))[:300]))
+    vp2 = jax.tree_util.tree_map(lambda a: a + jnp.asarray(np.random.default_rng(7).uniform(0.1, 0.6, a.shape).astype(np.float32)), vp)
+    want = Outer(False).apply(vp2, xs)
+    try:
+      got = Outer(True).apply(vp2, xs)
+    except Exception as e:  # noqa: BLE001
+      ctx.check(False, 'grandchild_arg:apply_raises', dict(case=desc, error=repr(e)[:200]))
+      return
+    gl, wl = jax.tree_util.tree_leaves(got), jax.tree_util.tree_leaves(want)
+    ctx.check(len(gl) == len(wl) and all(np.allclose(a, b, atol=1e-5) for a, b in zip(gl, wl)), 'grandchild_arg:%s' % ('scan_vs_loop' if tr == 'scan' else 'vmap_vs_stack'),
+              lambda: dict(case=desc))
+
+
 def run(ctx):
+  for i in ctx.indices(16, 'grandchild_arg'):
+    run_grandchild_arg(ctx, i, ctx.rng('grandchild_arg', i))
   for i in ctx.indices(48 if ctx.tier == 'quick' else 96, 'attr_body'):
     run_attr_body(ctx, i, ctx.rng('attr_body', i))
   for i in ctx.indices(24 if ctx.tier == 'quick' else 48, 'readonly_carry'):
